@@ -218,6 +218,12 @@ def run_nesting(spec, rec, dadi, models):
         for rep in range(spec["reps"]):
             rng = rng_for(spec["seed"], "C15nest", ri, rep)
             env = {n: draw_value(rng, n) for n in names}
+            if rep % 4 == 3:
+                # ties: all sizes equal and all migration rates equal (independently drawn reals never are; real models often are)
+                for pref in ("nu", "m"):
+                    grp = [n_ for n_ in names if n_.startswith(pref) and n_ not in cons]
+                    for n_ in grp[1:]:
+                        env[n_] = env[grp[0]]
             if "T" in env and "Ts" in env and "T" not in cons and "Ts" not in cons:
                 # models that branch on whether the split is older than the size change: both orders, in turn
                 env["Ts"] = env["T"] * (float(rng.uniform(1.2, 2.0)) if rep % 2 == 0 else float(rng.uniform(0.2, 0.8)))
